@@ -166,22 +166,85 @@ func (r *dialRec) String() string {
 	return fmt.Sprintf("%s p%d %s start=%d@%v %s%s", kindName[r.kind], r.peer, r.addr, r.start, r.startAt, st, z)
 }
 
+// connRec is what D's recording notifiee saw of one connection.
+type connRec struct {
+	id         string
+	peer       int
+	addr       string
+	seen, disc uint64 // stamps at which Connected / Disconnected were delivered to the notifiee (0 = not yet)
+	closedBy   string
+}
+
+// noti is a notifiee on the dialing swarm: it records Connected / Disconnected per connection and, in the
+// "connections vanish" stratum, closes new connections to the target peers from inside Connected (at once) or
+// from a task started there (after a small delay).
+type noti struct {
+	w     *world
+	mode  int // 0 record only, 1 close at once, 2 close after delay
+	delay time.Duration
+}
+
+func (n *noti) Listen(network.Network, ma.Multiaddr)      {}
+func (n *noti) ListenClose(network.Network, ma.Multiaddr) {}
+
+func (w *world) conn(c network.Conn) *connRec {
+	id := c.ID()
+	r := w.conns[id]
+	if r == nil {
+		r = &connRec{id: id, peer: w.peerIndex(c.RemotePeer()), addr: c.RemoteMultiaddr().String(), seen: simrt.Stamp()}
+		w.conns[id] = r
+		w.connOrder = append(w.connOrder, r)
+	}
+	return r
+}
+
+func (n *noti) Connected(_ network.Network, c network.Conn) {
+	r := n.w.conn(c)
+	if r.peer < 0 || c.Stat().Direction != network.DirOutbound {
+		return
+	}
+	switch n.mode {
+	case 1:
+		r.closedBy = "notifiee, at once"
+		c.Close()
+	case 2:
+		r.closedBy = fmt.Sprintf("notifiee, after %v", n.delay)
+		simrt.GoNamed("conn-closer", func() {
+			simrt.TimeSleep(n.delay)
+			c.Close()
+		})
+	}
+}
+
+func (n *noti) Disconnected(_ network.Network, c network.Conn) {
+	r := n.w.conn(c)
+	if r.disc == 0 {
+		r.disc = simrt.Stamp()
+		if n.w.onDisc != nil && c.Stat().Direction == network.DirOutbound {
+			n.w.onDisc(r.peer)
+		}
+	}
+}
+
 type world struct {
-	o        *common.Outcome
-	peers    []*peerSpec
-	ids      []peer.ID // target peers
-	qID      peer.ID   // the honest other peer
-	relayID  peer.ID
-	targets  map[string]*target // by canonical address (all peers; addresses are disjoint)
-	dns      map[string]dnsEntry
-	dnsSeen  map[string]bool
-	punch    bool                    // hole-punch sub-stratum of the QUIC stratum (see sim_test.go)
-	reuseOff bool                    // quicreuse.DisableReuseport() on the dialing node
-	rcmgr    network.ResourceManager // the dialing node's REAL resource manager (QUIC stratum), nil = NullResourceManager
-	quic     bool                    // QUIC stratum: /quic-v1 addresses go to the REAL QUIC transport over simnet's UDP wire
-	udpLost  map[string]int          // sLossyStart: datagrams dropped so far in the current dial, by destination
-	recs     []*dialRec
-	dnsCalls int
+	onDisc    func(peer int)
+	conns     map[string]*connRec
+	connOrder []*connRec
+	o         *common.Outcome
+	peers     []*peerSpec
+	ids       []peer.ID // target peers
+	qID       peer.ID   // the honest other peer
+	relayID   peer.ID
+	targets   map[string]*target // by canonical address (all peers; addresses are disjoint)
+	dns       map[string]dnsEntry
+	dnsSeen   map[string]bool
+	punch     bool                    // hole-punch sub-stratum of the QUIC stratum (see sim_test.go)
+	reuseOff  bool                    // quicreuse.DisableReuseport() on the dialing node
+	rcmgr     network.ResourceManager // the dialing node's REAL resource manager (QUIC stratum), nil = NullResourceManager
+	quic      bool                    // QUIC stratum: /quic-v1 addresses go to the REAL QUIC transport over simnet's UDP wire
+	udpLost   map[string]int          // sLossyStart: datagrams dropped so far in the current dial, by destination
+	recs      []*dialRec
+	dnsCalls  int
 }
 
 func (w *world) peerIndex(p peer.ID) int {
